@@ -262,9 +262,10 @@ impl<'a, 'b> Generator<'a, 'b> {
                     write!(self.out, "break");
                 }
                 IR::Return(t) => {
-                    write!(self.out, "return ");
+                    // Lua only allows `return` as the last statement of a block, Sylt allows
+                    // statements after a `ret`.
                     let t = self.expand(t).to_string();
-                    write!(self.out, "{}", t);
+                    write!(self.out, "do return {} end", t);
                 }
                 IR::HaltAndCatchFire(msg) => {
                     write!(self.out, "__CRASH(\"{}\")()", msg);
